@@ -34,7 +34,7 @@ const B: usize = 3;
 const C: usize = 4;
 const FIRST_MALFORMED: usize = 5;
 const ZERO_KEY: usize = 8; // outcome unspecified by the statement
-const N_CANDS: usize = 13;
+const N_CANDS: usize = 15;
 
 fn candidates(keys: &Keys) -> (Vec<RawSet>, Vec<Option<SetSpec>>) {
     let sp = |s: &[(usize, u128)], t: u128, n: u8| SetSpec { signers: s.to_vec(), threshold: t, nonce: n };
@@ -43,7 +43,7 @@ fn candidates(keys: &Keys) -> (Vec<RawSet>, Vec<Option<SetSpec>>) {
         sp(&[(1, 3), (3, 4)], 5, 10),         // I1
         sp(&[(0, 1)], 1, 1),                  // A
         sp(&[(0, 1), (1, 2)], 2, 2),          // B
-        sp(&[(1, 1), (2, 1), (3, 1)], 3, 3),  // C: threshold == total (boundary, well-formed)
+        sp(&[(0, 1), (1, 1), (2, 1), (3, 1), (4, 1), (5, 1)], 6, 3),  // C: six signers, threshold == total (boundary, well-formed)
     ];
     let mut cands: Vec<RawSet> = good.iter().map(|s| s.raw(keys)).collect();
     let mut specs: Vec<Option<SetSpec>> = good.into_iter().map(Some).collect();
@@ -57,6 +57,9 @@ fn candidates(keys: &Keys) -> (Vec<RawSet>, Vec<Option<SetSpec>>) {
         RawSet { signers: vec![(k[0], MAX), (k[1], 1)], threshold: 1, nonce: [25; 32] },    // 10 weights sum past u128
         RawSet { signers: vec![(k[0], 1), (k[1], 1)], threshold: 0, nonce: [26; 32] },      // 11 threshold 0
         RawSet { signers: vec![(k[0], 1), (k[1], 1)], threshold: 3, nonce: [27; 32] },      // 12 threshold total+1
+        // the sum wraps at the first / in the middle and the wrapped total still reaches the threshold
+        RawSet { signers: vec![(k[0], MAX), (k[1], 2), (k[2], 3)], threshold: 4, nonce: [28; 32] }, // 13
+        RawSet { signers: vec![(k[0], 2), (k[1], MAX), (k[2], 3), (k[3], 1)], threshold: 5, nonce: [29; 32] }, // 14
     ];
     for m in mal {
         cands.push(m);
@@ -160,7 +163,7 @@ impl Scenario for C03 {
         let owner = env.register(Principal, ());
         let operator = env.register(Principal, ());
         let factory = env.register(Factory, ());
-        let keys = Keys::new(4);
+        let keys = Keys::new(6);
         let (cands, specs) = candidates(&keys);
         // native seat at the address the factory will deploy to
         let salt = [0x5a; 32];
@@ -182,8 +185,9 @@ impl Scenario for C03 {
         let mut v = vec![];
         if m.advances < 1 {
             v.push(Act::Advance(20));
-            // ~64 days: longer than any TTL a contract extends to, shorter than the minimum persistent TTL
-            v.push(Act::Advance(1_100_000));
+            // ~405 days: longer than the maximum entry TTL, so every temporary entry is gone by then, while
+            // the world's keeper (World::set_seq) keeps instance / persistent entries alive
+            v.push(Act::Advance(7_000_000));
         }
         for cand in [A, B, C, I0, I1] {
             for src in [Src::Latest, Src::Older, Src::Outdated, Src::NeverInstalled, Src::LatestForOtherCandidate, Src::LatestUnderApproveCommand, Src::LatestWithRepeatedEntry] {
@@ -414,7 +418,7 @@ fn main() {
         let mut o = Opts::new(tier, if thorough { 9 } else { 7 });
         o.min_depth = 3;
         o.xcheck = tier == "thorough";
-        o.rule = "retention 1 (thorough: also 0 and 2); construction through a factory with initial lists [], [I0], [I0,I1], [I0,I0], [I0,I1,I0], [I0,I1,A], [A,A,B], [I0,malformed_i], [malformed_i] (8 malformed shapes: empty, adjacent duplicate key, descending keys, all-zero key, zero weight, weights summing past u128, threshold 0, threshold total+1); then all rotation sequences over candidates {A,B,C(threshold==total),I0,I1, 8 malformed} x proof source {latest, older retained, outdated, never-installed, latest-signing-another-candidate, latest-signing-under-the-approval-command-tag, latest with one entry listed twice} x bypass {no, operator, no auth, owner auth}; after every new state epoch(), signers_hash_by_epoch(e) for all e in 0..=epoch+1 and epoch_by_signers_hash(h) for all 13 candidate hashes are compared with the installed list".into();
+        o.rule = "retention 1 (thorough: also 0 and 2); construction through a factory with initial lists [], [I0], [I0,I1], [I0,I0], [I0,I1,I0], [I0,I1,A], [A,A,B], [I0,malformed_i], [malformed_i] (10 malformed shapes: empty, adjacent duplicate key, descending keys, all-zero key, zero weight, weights summing past u128 at the last / first / a middle signer with the wrapped total reaching the threshold, threshold 0, threshold total+1); then all rotation sequences over candidates {A,B,C(six signers, threshold==total),I0,I1, 10 malformed} x proof source {latest, older retained, outdated, never-installed, latest-signing-another-candidate, latest-signing-under-the-approval-command-tag, latest with one entry listed twice} x bypass {no, operator, no auth, owner auth}; after every new state epoch(), signers_hash_by_epoch(e) for all e in 0..=epoch+1 and epoch_by_signers_hash(h) for all 15 candidate hashes are compared with the installed list".into();
         (s, o)
     });
 }
